@@ -129,6 +129,29 @@ def search(ctx, n_theta, n_pts):
             except Exception as ex:
                 hit(f'search:exception:{fam}:{type(ex).__name__}', f'{fam} theta={th}: raised {type(ex).__name__}: {ex}',
                     {'family': fam, 'theta': th, 'error': repr(ex), 'repro': repro(fam, th, [(0.3, 0.7)], 'probability_density')})
+    # history oracle: an instance whose theta is changed between evaluations must behave like a fresh one
+    for fam in FAMS:
+        for it in range(4):
+            th1, th2 = implbiv.sample_theta(rng, fam), implbiv.sample_theta(rng, fam)
+            X = np.column_stack([rng.uniform(1e-3, 1 - 1e-3, 30), rng.uniform(1e-3, 1 - 1e-3, 30)])
+            c = implbiv.make(fam, th1)
+            for meth in ('cumulative_distribution', 'partial_derivative', 'probability_density'):
+                with np.errstate(all='ignore'):
+                    getattr(c, meth)(X)
+            c.theta = th2
+            fresh = implbiv.make(fam, th2)
+            for meth in ('cumulative_distribution', 'partial_derivative', 'probability_density'):
+                with np.errstate(all='ignore'):
+                    a = np.asarray(getattr(c, meth)(X), dtype=float)
+                    b = np.asarray(getattr(fresh, meth)(X), dtype=float)
+                if not np.array_equal(a, b, equal_nan=True):
+                    i = int(np.where(a != b)[0][0])
+                    hit(f'search:stale-state:{meth}:{fam}', f'{fam}: {meth} after changing theta {th1} -> {th2} on the same instance differs from a fresh instance at {X[i].tolist()}: {a[i]!r} vs {b[i]!r}',
+                        {'family': fam, 'theta_before': th1, 'theta_after': th2, 'point': X[i].tolist(), 'reused': a[i], 'fresh': b[i],
+                         'repro': (f"import numpy as np\nfrom copulas.bivariate import Bivariate\nX=np.array({X[i:i+1].tolist()!r})\n"
+                                   f"c=Bivariate(copula_type='{fam}'); c.theta={th1!r}\nc.cumulative_distribution(X); c.partial_derivative(X); c.probability_density(X)\nc.theta={th2!r}\n"
+                                   f"f=Bivariate(copula_type='{fam}'); f.theta={th2!r}\na=c.{meth}(X); b=f.{meth}(X)\nprint(a,b)\nassert np.array_equal(a,b)\n")})
+            ctx.case(f'search:stale:{fam}:{it}', None)
     ctx.rule('search: per family, thetas x points in [1e-3,1-1e-3]^2: h in [0,1], h vs central difference of C, h monotone in u, pdf>=0, '
              'pdf symmetric, pdf vs central difference of h, log pdf, row-vs-batch equality')
     return found
